@@ -226,6 +226,13 @@ def monResult (r : Run) (tid : Nat) (tok : String) : MonSt :=
     | none => r.mon
   | _ => r.mon
 
+/-- the comparison of an atomic event: which `fetch_*` / `exchange` spells a read-modify-write is the implementation's
+    business; location, orders, value read, value written and success are compared -/
+def canonRmw (ev : String) : String :=
+  match ev.splitOn " " with
+  | op :: rest => if ["fadd", "fsub", "fxor", "for", "fand", "xchg"].contains op then " ".intercalate ("rmw" :: rest) else ev
+  | [] => ev
+
 def processQ (r : Run) (line : String) (st : Stats) : Run × Stats :=
   -- Q <tid> <op> <loc> <mo> <mofail> <rd> <wr> <ok> | toks...
   let halves := line.splitOn "|"
@@ -310,7 +317,7 @@ def processQ (r : Run) (line : String) (st : Stats) : Run × Stats :=
       match r.sim.step tid with
       | none => ({ r with mismatch := some s!"step={r.step} impl=[{implEv} | {" ".intercalate toks}] model=[thread {tid} has no enabled step]" }, st)
       | some (c', mev, mtoks) =>
-        if mev == implEv && mtoks == toks then ({ r with sim := c' }, st)
+        if canonRmw mev == canonRmw implEv && mtoks == toks then ({ r with sim := c' }, st)
         else ({ r with mismatch := some s!"step={r.step} tid={tid} impl=[{implEv} | {" ".intercalate toks}] model=[{mev} | {" ".intercalate mtoks}]" }, st)
   | _ => (r, st)
 
